@@ -340,6 +340,115 @@ func dumpCard(c vcard.Card) string {
 	return strconv.Quote(buf.String())
 }
 
+// ---------- part E: lists whose later items lack optional values that earlier items have ----------
+
+func c10JudgeE(kind, call string, order int) (clause, detail string) {
+	defer func() {
+		if p := recover(); p != nil {
+			clause, detail = "panic", fmt.Sprint(p)
+		}
+	}()
+	ctx := context.Background()
+	mt := time.Unix(1600000000, 0).UTC()
+	coll := "/u/c/k1/"
+	// item "rich" has every optional value, item "bare" has none; order decides which comes first
+	names := []string{"a-rich", "b-bare"}
+	if order == 1 {
+		names = []string{"a-bare", "b-rich"}
+	}
+	if kind == "caldav" {
+		var objs []caldav.CalendarObject
+		var cals []caldav.Calendar
+		for _, n := range names {
+			o := caldav.CalendarObject{Path: coll + n + ".ics", Data: harness.SampleCalendar(n, n)}
+			c := caldav.Calendar{Path: "/u/c/" + n + "/"}
+			if strings.HasSuffix(n, "rich") {
+				o.ETag, o.ModTime, o.ContentLength = "tag-"+n, mt, 99
+				c.Name, c.Description, c.MaxResourceSize, c.SupportedComponentSet = "N", "D", 77, []string{"VTODO"}
+			}
+			objs = append(objs, o)
+			cals = append(cals, c)
+		}
+		b := &harness.CalBackend{Principal: "/u/", HomeSet: "/u/c/", Calendars: append([]caldav.Calendar{{Path: coll}}, cals...), Objects: objs}
+		cl, _ := caldav.NewClient((&harness.Wire{Handler: &caldav.Handler{Backend: b}}).Client(), "http://h/")
+		var got []caldav.CalendarObject
+		var err error
+		switch call {
+		case "multiget":
+			got, err = cl.MultiGetCalendar(ctx, coll, &caldav.CalendarMultiGet{Paths: []string{objs[0].Path, objs[1].Path}, CompRequest: caldav.CalendarCompRequest{Name: "VCALENDAR", AllProps: true, AllComps: true}})
+		case "query":
+			got, err = cl.QueryCalendar(ctx, coll, &caldav.CalendarQuery{CompRequest: caldav.CalendarCompRequest{Name: "VCALENDAR", AllProps: true, AllComps: true}, CompFilter: caldav.CompFilter{Name: "VCALENDAR"}})
+		case "find":
+			l, err := cl.FindCalendars(ctx, "/u/c/")
+			if err != nil || len(l) != 3 {
+				return "find-error", fmt.Sprintf("%d, %v", len(l), err)
+			}
+			for i, w := range cals {
+				if w.SupportedComponentSet == nil {
+					w.SupportedComponentSet = []string{"VEVENT"}
+				}
+				if !reflect.DeepEqual(l[i+1], w) {
+					return "collection-differs", fmt.Sprintf("got %+v want %+v", l[i+1], w)
+				}
+			}
+			return "", ""
+		}
+		if err != nil || len(got) != 2 {
+			return call + "-error", fmt.Sprintf("%d objects, %v", len(got), err)
+		}
+		for i, o := range got {
+			if d := sameObj(kind, o.Path, objs[i].Path, o.ETag, objs[i].ETag, o.ModTime, objs[i].ModTime); d != "" {
+				return call + "-metadata", d
+			}
+		}
+		return "", ""
+	}
+	var objs []carddav.AddressObject
+	var books []carddav.AddressBook
+	for _, n := range names {
+		o := carddav.AddressObject{Path: coll + n + ".vcf", Card: harness.SampleCard(n)}
+		c := carddav.AddressBook{Path: "/u/c/" + n + "/"}
+		if strings.HasSuffix(n, "rich") {
+			o.ETag, o.ModTime, o.ContentLength = "tag-"+n, mt, 99
+			c.Name, c.Description, c.MaxResourceSize = "N", "D", 77
+		}
+		objs = append(objs, o)
+		books = append(books, c)
+	}
+	b := &harness.CardBackend{Principal: "/u/", HomeSet: "/u/c/", Books: append([]carddav.AddressBook{{Path: coll}}, books...), Objects: objs}
+	cl, _ := carddav.NewClient((&harness.Wire{Handler: &carddav.Handler{Backend: b}}).Client(), "http://h/")
+	var got []carddav.AddressObject
+	var err error
+	switch call {
+	case "multiget":
+		got, err = cl.MultiGetAddressBook(ctx, coll, &carddav.AddressBookMultiGet{Paths: []string{objs[0].Path, objs[1].Path}, DataRequest: carddav.AddressDataRequest{AllProp: true}})
+	case "query":
+		got, err = cl.QueryAddressBook(ctx, coll, &carddav.AddressBookQuery{DataRequest: carddav.AddressDataRequest{AllProp: true}, PropFilters: []carddav.PropFilter{{Name: "FN"}}})
+	case "find":
+		l, err := cl.FindAddressBooks(ctx, "/u/c/")
+		if err != nil || len(l) != 3 {
+			return "find-error", fmt.Sprintf("%d, %v", len(l), err)
+		}
+		for i, w := range books {
+			g := l[i+1]
+			g.SupportedAddressData = nil
+			if !reflect.DeepEqual(g, w) {
+				return "collection-differs", fmt.Sprintf("got %+v want %+v", g, w)
+			}
+		}
+		return "", ""
+	}
+	if err != nil || len(got) != 2 {
+		return call + "-error", fmt.Sprintf("%d objects, %v", len(got), err)
+	}
+	for i, o := range got {
+		if d := sameObj(kind, o.Path, objs[i].Path, o.ETag, objs[i].ETag, o.ModTime, objs[i].ModTime); d != "" {
+			return call + "-metadata", d
+		}
+	}
+	return "", ""
+}
+
 // ---------- part B: collections ----------
 
 type c10BCase struct {
@@ -473,17 +582,22 @@ func c10JudgeC(kind string, list []int) (clause, detail string) {
 // ---------- part D: client reads conformant documents from an independent writer ----------
 
 type c10DCase struct {
-	Kind   string      `json:"kind"`
-	Call   string      `json:"call"` // multiget | find | sync
-	Style  indep.Style `json:"style"`
-	Split  bool        `json:"split_propstats"`
-	Extras bool        `json:"unknown_extra_props"`
-	Feats  int         `json:"feature_set"`
+	BadFirst bool        `json:"non_success_propstat_first"`
+	Kind     string      `json:"kind"`
+	Call     string      `json:"call"` // multiget | find | sync
+	Style    indep.Style `json:"style"`
+	Split    bool        `json:"split_propstats"`
+	Extras   bool        `json:"unknown_extra_props"`
+	Feats    int         `json:"feature_set"`
 }
 
 func httpDate(t time.Time) string { return t.UTC().Format(http.TimeFormat) }
 
 func propstats(split bool, ok []*indep.El, extras bool) []*indep.El {
+	return propstatsOrd(split, ok, extras, false)
+}
+
+func propstatsOrd(split bool, ok []*indep.El, extras bool, badFirst bool) []*indep.El {
 	if extras {
 		ok = append([]*indep.El{indep.E("urn:unknown", "color").T("#fff")}, ok...)
 		ok = append(ok, indep.E(indep.DAV, "owner", indep.E(indep.DAV, "href").T("/u/")))
@@ -498,7 +612,12 @@ func propstats(split bool, ok []*indep.El, extras bool) []*indep.El {
 		out = append(out, st(ok, "HTTP/1.1 200 OK"))
 	}
 	if extras {
-		out = append(out, st([]*indep.El{indep.E(indep.DAV, "quota-used-bytes")}, "HTTP/1.1 404 Not Found"))
+		bad := st([]*indep.El{indep.E(indep.DAV, "quota-used-bytes")}, "HTTP/1.1 404 Not Found")
+		if badFirst {
+			out = append([]*indep.El{bad}, out...)
+		} else {
+			out = append(out, bad)
+		}
 	}
 	return out
 }
@@ -537,7 +656,7 @@ func c10JudgeD(c c10DCase, sets [][]docFeature) (clause, detail string) {
 		for _, o := range objs {
 			props := []*indep.El{indep.E(indep.DAV, "getetag").T(strconv.Quote(o.etag)), indep.E(indep.DAV, "getlastmodified").T(httpDate(mt)), indep.E(ns, dataName).T(o.data)}
 			r := indep.E(indep.DAV, "response", indep.E(indep.DAV, "href").T(indep.EscapeHref(o.path)))
-			r.Add(propstats(c.Split, props, c.Extras)...)
+			r.Add(propstatsOrd(c.Split, props, c.Extras, c.BadFirst)...)
 			ms.Add(r)
 		}
 		if c.Call == "sync" {
@@ -555,7 +674,7 @@ func c10JudgeD(c c10DCase, sets [][]docFeature) (clause, detail string) {
 		home.Add(propstats(false, []*indep.El{indep.E(indep.DAV, "resourcetype", indep.E(indep.DAV, "collection"))}, false)...)
 		ms.Add(home)
 		r := indep.E(indep.DAV, "response", indep.E(indep.DAV, "href").T(indep.EscapeHref("/u/c/k é/")))
-		r.Add(propstats(c.Split, props, c.Extras)...)
+		r.Add(propstatsOrd(c.Split, props, c.Extras, c.BadFirst)...)
 		ms.Add(r)
 	}
 	cap := &harness.Capture{Status: 207, RespCT: "application/xml; charset=utf-8", Resp: string(indep.Render(ms, c.Style))}
@@ -739,6 +858,31 @@ func init() {
 			}
 		})
 		base += int64(len(lists) * 2)
+		type ecase struct {
+			kind, call string
+			order      int
+		}
+		var ecases []ecase
+		for _, kind := range []string{"caldav", "carddav"} {
+			for _, call := range []string{"multiget", "query", "find"} {
+				for o := 0; o < 2; o++ {
+					ecases = append(ecases, ecase{kind, call, o})
+				}
+			}
+		}
+		r.Parallel(len(ecases), func(i int, s *engine.Shard) {
+			c := ecases[i]
+			s.Transition()
+			clause, detail := c10JudgeE(c.kind, c.call, c.order)
+			s.Clause("E: a later item lacking optional values does not inherit an earlier item's")
+			s.Outcome("E/" + c.kind + "/" + c.call + "/" + clause)
+			s.Nontrivial(fmt.Sprintf("E/%d", i))
+			if clause != "" {
+				s.Violate(engine.Violation{Sig: fmt.Sprintf("C10/%s/%s.list-order=%d", clause, c.kind, c.order), Clause: clause, Index: base + int64(i), Kind: "C10-E",
+					Case: map[string]interface{}{"kind": c.kind, "call": c.call, "order": c.order}, Expected: "each item carries exactly the backend's values", Observed: detail})
+			}
+		})
+		base += int64(len(ecases))
 		var dcases []c10DCase
 		for _, kind := range []string{"caldav", "carddav"} {
 			calls := []string{"multiget", "find"}
@@ -758,6 +902,9 @@ func init() {
 							}
 							for _, f := range fsN {
 								dcases = append(dcases, c10DCase{Kind: kind, Call: call, Style: st, Split: split, Extras: ex, Feats: f})
+								if ex {
+									dcases = append(dcases, c10DCase{Kind: kind, Call: call, Style: st, Split: split, Extras: ex, Feats: f, BadFirst: true})
+								}
 							}
 						}
 					}
@@ -775,7 +922,7 @@ func init() {
 				s.Sample(c)
 			}
 			if clause != "" {
-				s.Violate(engine.Violation{Sig: fmt.Sprintf("C10/%s/%s.%s/ns%d.split=%v.extras=%v", clause, c.Kind, c.Call, c.Style.NS, c.Split, c.Extras), Clause: clause, Index: base + int64(i), Kind: "C10-D", Case: c, Expected: "client returns the values the document holds", Observed: detail})
+				s.Violate(engine.Violation{Sig: fmt.Sprintf("C10/%s/%s.%s/ns%d.split=%v.extras=%v.badfirst=%v", clause, c.Kind, c.Call, c.Style.NS, c.Split, c.Extras, c.BadFirst), Clause: clause, Index: base + int64(i), Kind: "C10-D", Case: c, Expected: "client returns the values the document holds", Observed: detail})
 			}
 		})
 	})
@@ -808,6 +955,18 @@ func init() {
 			return false, err.Error()
 		}
 		clause, detail := c10JudgeC(c.Kind, c.List)
+		return clause == "", clause + " " + detail
+	})
+	registerReplay("C10-E", func(raw json.RawMessage) (bool, string) {
+		var c struct {
+			Kind  string `json:"kind"`
+			Call  string `json:"call"`
+			Order int    `json:"order"`
+		}
+		if err := json.Unmarshal(raw, &c); err != nil {
+			return false, err.Error()
+		}
+		clause, detail := c10JudgeE(c.Kind, c.Call, c.Order)
 		return clause == "", clause + " " + detail
 	})
 	registerReplay("C10-D", func(raw json.RawMessage) (bool, string) {
